@@ -8,6 +8,18 @@ import (
 )
 
 func CreateFunctionData[F any](featureType model.FeatureTypeType) []F {
+	result := functionDataForFeatureType[F](featureType)
+
+	if len(result) == 0 {
+		panic(fmt.Errorf("unknown featureType '%s'", featureType))
+	}
+
+	return result
+}
+
+// same as CreateFunctionData, but a feature type this stack does not know
+// (e.g. one announced by a remote device) yields no function data instead of a panic
+func functionDataForFeatureType[F any](featureType model.FeatureTypeType) []F {
 	// Some devices use generic for everything (e.g. Vaillant Arotherm heatpump)
 	// or for some things like the SMA HM 2.0 or Elli Wallbox, which uses Generic feature
 	// for Heartbeats, even though that should go into FeatureTypeTypeDeviceDiagnosis
@@ -297,10 +309,6 @@ func CreateFunctionData[F any](featureType model.FeatureTypeType) []F {
 			createFunctionData[model.TimeTableDescriptionListDataType, F](model.FunctionTypeTimeTableDescriptionListData),
 			createFunctionData[model.TimeTableListDataType, F](model.FunctionTypeTimeTableListData),
 		}...)
-	}
-
-	if len(result) == 0 {
-		panic(fmt.Errorf("unknown featureType '%s'", featureType))
 	}
 
 	return result
